@@ -240,38 +240,40 @@ Section Loop.
     Variable tgt : list (C * Z).      (* tgt_district_seats *)
     Variable dorder : list C.         (* iteration order of frozenset(cur_district_seats) | frozenset(tgt_district_seats) *)
 
-    Definition bstep (s : bstate) : step_result :=
+    Definition bstep_body (s : bstate) (under over : list C) : step_result :=
       let res := b_res s in
-      let '(under, over) := unsat dorder res tgt in
-      match under, over with
-      | [], [] => Done
-      | _, _ =>
-          let quots := calc_quots votes (b_rho s) (b_gamma s) in
-          match labeled (parties votes) (districts votes) quots res under over with
-          | LabKeyError => Stop BP_key_error
-          | LabFuel => Stop BP_out_of_fuel
-          | Lab LD LP =>
-              match sort_pos (filter (fun i => dmem LD i) under) with
-              | start :: _ =>
-                  match walk (S (length LD)) LD LP over start [] [] with
-                  | WalkKeyError => Stop BP_key_error
-                  | WalkFuel => Stop BP_out_of_fuel
-                  | WalkDone hops =>
-                      match augment res start hops with
-                      | Some res' => Next (mk_bstate res' (b_rho s) (b_gamma s))
-                      | None => Stop BP_key_error
-                      end
-                  end
-              | [] =>
-                  match adj_coef q quots res (map fst LD) (map fst LP) with
-                  | AdjZeroDivision => Stop BP_zero_division
-                  | Adj a =>
-                      if Qeq_bool a 0 || Qle_bool 1 a then Stop (BP_refused a)
-                      else Next (mk_bstate res (scale_rho_r (map fst LD) a (b_rho s))
-                                          (scale_gamma_r (map fst LP) a (b_gamma s)))
+      let quots := calc_quots votes (b_rho s) (b_gamma s) in
+      match labeled (parties votes) (districts votes) quots res under over with
+      | LabKeyError => Stop BP_key_error
+      | LabFuel => Stop BP_out_of_fuel
+      | Lab LD LP =>
+          match sort_pos (filter (fun i => dmem LD i) under) with
+          | start :: _ =>
+              match walk (S (length LD)) LD LP over start [] [] with
+              | WalkKeyError => Stop BP_key_error
+              | WalkFuel => Stop BP_out_of_fuel
+              | WalkDone hops =>
+                  match augment res start hops with
+                  | Some res' => Next (mk_bstate res' (b_rho s) (b_gamma s))
+                  | None => Stop BP_key_error
                   end
               end
+          | [] =>
+              match adj_coef q quots res (map fst LD) (map fst LP) with
+              | AdjZeroDivision => Stop BP_zero_division
+              | Adj a =>
+                  if Qeq_bool a 0 || Qle_bool 1 a then Stop (BP_refused a)
+                  else Next (mk_bstate res (scale_rho_r (map fst LD) a (b_rho s))
+                                       (scale_gamma_r (map fst LP) a (b_gamma s)))
+              end
           end
+      end.
+
+    Definition bstep (s : bstate) : step_result :=
+      let uo := unsat dorder (b_res s) tgt in
+      match fst uo, snd uo with
+      | [], [] => Done
+      | _, _ => bstep_body s (fst uo) (snd uo)
       end.
 
     Fixpoint bloop (fuel : nat) (s : bstate) : bp_result :=
